@@ -378,6 +378,12 @@ def ordered_map_valid_stream_old(data_field, map_field, result_field,
         if dd >= df_range[1] and dd < len(data_field.data):
             df_range = next(df_it)
             dfc = data_field.data[df_range[0]:df_range[1]]
+        elif mm == 0:
+            # no map entry was consumed and there is no further chunk of 'data_field' to move to:
+            # the map refers to a row that 'data_field' does not have; calling again cannot make progress
+            raise ValueError(
+                "ordered_map_valid_stream_old: map entry {} at row {} is not a row of 'data_field' "
+                "(length {})".format(dd, m, len(data_field.data)))
         # else:
         #     dfc = dfc[dd:]
 
